@@ -38,15 +38,15 @@ def build_mod(ctx):
 def run(ctx):
     setup = build_mod(ctx)
     rng = ctx.rng('gen')
-    n = ctx.scale(60, 3000)
+    n = ctx.scale(60, 1200)
     cases = [{'seeds': [rng.getrandbits(40) for _ in range(6)]} for _ in range(max(1, n // 6))]
-    obs = core.run_cases(ctx, 'c36', setup, cases, variant='asan', nproc=2, timeout=900)
+    obs = core.run_cases(ctx, 'c36', setup, cases, variant='asan', nproc=2, timeout=3600)
     for c, o in zip(cases, obs):
         if core.std_obs_check(ctx, c, o, True, True):
             judge(ctx, setup, c, o)
     # TSan: observations
     tcases = [{'seeds': [rng.getrandbits(40) for _ in range(3)]} for _ in range(ctx.scale(3, 40))]
-    tobs = core.run_cases(ctx, 'c36', setup, tcases, variant='tsan', nproc=2, timeout=900)
+    tobs = core.run_cases(ctx, 'c36', setup, tcases, variant='tsan', nproc=2, timeout=3600)
     for c, o in zip(tcases, tobs):
         if core.std_obs_check(ctx, c, o, True, False):
             judge(ctx, setup, c, o)
